@@ -166,7 +166,16 @@ func isTimeoutValue(p *Prog, v ssa.Value, depth int) bool {
 
 func runC10(c *Ctx) {
 	p := c.P
+	setUnitExclude()
 	owners := findDeadlineOwners(p)
+	{
+		var ex []*ssa.Function
+		for _, ow := range owners {
+			ex = append(ex, ow.Set, ow.SetAll)
+			ex = append(ex, ow.Reads...)
+		}
+		setUnitExclude(ex...)
+	}
 	fl := c.Obl("R0", "read-deadline-owners", "every module type with SetReadDeadline(time.Time) error is found (packetio.Buffer, dpipe.conn, udp.Conn, vnet.UDPConn, test.bridgeConn)", 5)
 	byT := map[string]*dlOwner{}
 	for _, o := range owners {
@@ -199,17 +208,17 @@ func runC10(c *Ctx) {
 			}
 			return false
 		}
-		for _, in := range findInstrs(ow.Set, setCall) {
+		for _, in := range findU(ow.Set, setCall) {
 			o.Site(in.Pos(), "%s", in.String())
 		}
-		if ok, bad := mustPass(entryPos(ow.Set), isReturn, setCall); !ok {
+		if ok, bad := mustPassU(entryPos(ow.Set), isReturn, setCall); !ok {
 			o.Fail(bad.Pos(), "%s.SetReadDeadline can return without arming a deadline.Deadline with its argument (one-shot timers lose the expiry after one read and fire stale ticks after an extension)", ow.T)
 			continue
 		}
 		// SetDeadline
 		if ow.SetAll != nil && len(ow.SetAll.Blocks) > 0 {
 			a2 := ow.SetAll.Params[1]
-			ok, bad := mustPass(entryPos(ow.SetAll), isReturn, func(in ssa.Instruction) bool {
+			ok, bad := mustPassU(entryPos(ow.SetAll), isReturn, func(in ssa.Instruction) bool {
 				call, ok := in.(*ssa.Call)
 				if !ok {
 					return false
@@ -236,7 +245,7 @@ func runC10(c *Ctx) {
 			return pkgOf(e.To) == pkgOf(ow.Set) && e.Kind != "ref"
 		})
 		for f := range reach {
-			for _, cm := range commsOf(f) {
+			for _, cm := range commsOfU(f) {
 				if cm.Dir != types.RecvOnly {
 					continue
 				}
@@ -265,7 +274,7 @@ func runC10(c *Ctx) {
 				o.Site(rf.Pos(), "delegates to %s", del)
 				continue
 			}
-			if len(commsOf(rf)) == 0 && len(rf.Blocks) == 1 && len(findInstrs(rf, isErrorReturn)) == 1 {
+			if len(commsOfU(rf)) == 0 && len(rf.Blocks) == 1 && len(findInstrs(rf, isErrorReturn)) == 1 {
 				o.Site(rf.Pos(), "not implemented: returns a constant error without reading")
 				continue
 			}
@@ -276,13 +285,13 @@ func runC10(c *Ctx) {
 			doneRole := "done " + ow.T + "." + ow.Field
 			var pre *ssa.Select
 			var waits []selCase
-			for _, cm := range commsOf(rf) {
+			for _, cm := range commsOfU(rf) {
 				if cm.Dir != types.RecvOnly {
 					continue
 				}
 				role := chanRole(cm.Chan)
 				if role == doneRole && cm.Sel != nil && !cm.Sel.Blocking {
-					if pre == nil || dominates(cm.Sel, pre) {
+					if pre == nil || domU(cm.Sel, pre) {
 						pre = cm.Sel
 					}
 				}
@@ -317,7 +326,7 @@ func runC10(c *Ctx) {
 				if !has {
 					o.Fail(w.Sel.Pos(), "%s blocks on %s without a Done() case: its deadline never releases it", fname(rf), chanRole(w.Chan))
 				}
-				if pre != nil && !dominates(pre, w.Sel) {
+				if pre != nil && !domU(pre, w.Sel) {
 					o.Fail(w.Sel.Pos(), "the blocking wait is reachable without passing the non-blocking deadline test")
 				}
 			}
@@ -326,7 +335,7 @@ func runC10(c *Ctx) {
 			}
 			// Done-case blocks
 			var doneBlocks []*ssa.BasicBlock
-			for _, cm := range commsOf(rf) {
+			for _, cm := range commsOfU(rf) {
 				if cm.Dir == types.RecvOnly && chanRole(cm.Chan) == doneRole && cm.Sel != nil {
 					cs, _ := caseBlocks(cm.Sel)
 					blk := cs[cm.Index]
@@ -339,7 +348,7 @@ func runC10(c *Ctx) {
 					}
 					doneBlocks = append(doneBlocks, blk)
 					// every return reachable from the case block before leaving it is a timeout error
-					for in := range reach(blockStart(blk), isReturn) {
+					for in := range reachU(blockStart(blk), isReturn) {
 						ret, ok := in.(*ssa.Return)
 						if !ok {
 							continue
@@ -417,7 +426,7 @@ func readDelegation(rf *ssa.Function, ow *dlOwner, byT map[string]*dlOwner) stri
 			n++
 		}
 	})
-	if n == 1 && len(commsOf(rf)) == 0 {
+	if n == 1 && len(commsOfU(rf)) == 0 {
 		return target
 	}
 	return ""
